@@ -61,7 +61,15 @@ def r_from_timestamp(chk, P, tier):
     guards = [c for c in p.conds if c[0][0] == "switch" and c[1][0] == "bin" and c[1][1] in ("Lt", "Gt", "Le", "Ge")
               and any(y[0] == "named" and y[1].endswith("UNIX_EPOCH_DAY") for y in walk_terms(c[1][2]))]
     bounds = sorted(const_of(c[1][3]) for c in guards if const_of(c[1][3]) is not None)
-    chk.expect(bounds == [-(1 << 31), (1 << 31) - 1], "i32 guard", "the day number is not compared with i32::MIN and i32::MAX before `as i32` (found %s)" % bounds, loc=P.loc(fn))
+    # accepted idioms: explicit comparison with i32::MIN / i32::MAX, or a checked round trip `d as i32 as i64 != d => None`
+    rt = False
+    if bounds != [-(1 << 31), (1 << 31) - 1]:
+        from absint import Engine
+        import absfn
+        F = absfn.Fn(Engine(P), fn, (), 0)
+        checked, cmps = F.roundtrip()
+        rt = bool(checked) and any(P.ty_s(t) == "i32" for x, t in cmps.values())
+    chk.expect(bounds == [-(1 << 31), (1 << 31) - 1] or rt, "i32 guard", "the day number is neither compared with i32::MIN and i32::MAX nor round-trip checked before `as i32` (found %s)" % bounds, loc=P.loc(fn))
     nd = calls.get("from_num_days_from_ce_opt")
     nt = calls.get("from_num_seconds_from_midnight_opt")
     ok = nd is not None and nt is not None and nt[2][1] == ("arg", 2) and any(is_call(x, suffix="rem_euclid") for x in walk_terms(nt[2][0])) \
